@@ -283,6 +283,9 @@ def registry(r=None, lencase=None, part=None, salt=None, mgf=None):
     r = None if r in (None, '') else int(r)
     lencase = lencase or None
     part, salt, mgf = part or None, salt or None, mgf or None
+    # feasibility pruning only (an undecided pruning query keeps the path): a short budget is sound and halves the exploration time
+    from vf.pyvc import interp
+    interp.FEAS_TIMEOUT_MS = min(interp.FEAS_TIMEOUT_MS, 150)
     reg = common_registry()
     add_rsa_key(reg)
     add_mgf(reg)
@@ -302,7 +305,8 @@ def units(prop, tier):
     if prop in ('C04', 'C07'):
         out.append(pyvc_unit(prop, 'sig.pss.MGF1', registry, [P + 'MGF1']))
     if prop == 'C04':
-        for r in range(8):
+        # every value of emBits mod 8 in the thorough tier; the quick tier keeps 0 (no mask), 1, 4 and 7 (the extremes and the middle)
+        for r in (range(8) if tier != 'quick' else (0, 1, 4, 7)):
             for lc in ('eq', 'ne'):
                 out.append(pyvc_unit(prop, 'sig.pss.emsa_verify.embits_mod8_%d.len_%s' % (r, lc), (lambda r=r, lc=lc: registry(r, lc)),
                                      [P + '_EMSA_PSS_VERIFY']))
